@@ -216,7 +216,7 @@ impl C13 {
             }
         }
         let soup_len: Vec<u64> = if thorough { vec![1, 2, 3, 4, 5] } else { vec![1, 2, 3, 4] };
-        let cyc_lens: Vec<u64> = vec![1, 2, 3, 4, 5, 6, 7, 8, 9, 10, 11, 12, 100, 1000, 5000];
+        let cyc_lens: Vec<u64> = if thorough { vec![1, 2, 3, 4, 5, 6, 7, 8, 9, 10, 11, 12, 100, 1000, 5000] } else { vec![1, 2, 3, 4, 5, 6, 7, 8, 9, 10, 11, 12, 100, 1000, 2000] };
         let root: Value = serde_json::from_str(CURRENCY_JSON).unwrap();
         let mut paths = vec![];
         json_paths(&root, &mut vec![], &mut paths);
@@ -228,10 +228,12 @@ impl C13 {
         let mut fams = Fams::default();
         fams.add("single deviations of the bundled files", vec![devs.len() as u64]);
         for l in &soup_len {
-            fams.add(&format!("definition token soup of length {}", l), vec![(SOUP.len() as u64).pow(*l as u32), 2]);
+            // quick tier: the longest soups only into the empty context
+            let ctxs = if !thorough && *l == 4 { 1 } else { 2 };
+            fams.add(&format!("definition token soup of length {}", l), vec![(SOUP.len() as u64).pow(*l as u32), ctxs]);
         }
         fams.add("dependency cycles: length x namespace", vec![cyc_lens.len() as u64, 8]);
-        fams.add("dependency chains: length x direction", vec![3, 2]);
+        fams.add("dependency chains: length x direction", vec![if thorough { 3 } else { 2 }, 2]);
         fams.add("malformed substances and directives", vec![SUBSTANCE_FILES.len() as u64]);
         fams.add("currency JSON: truncations", vec![json_cuts.len() as u64]);
         fams.add("currency JSON: field deleted / type replaced / bad expression", vec![paths.len() as u64, 8]);
@@ -389,7 +391,7 @@ impl Space for C13 {
         Meta {
             id: "C13",
             level: "exploration",
-            rule: "deviation-bounded: 0 deviations (shipped files) then every single deviation {delete line, duplicate line, swap with next, delete each token, replace each number by 0 / -1} of definitions.units (quick: every 40th line), currency.units and datepatterns.txt; every definitions file of <= 4 (thorough 5) tokens over a 27-token alphabet, loaded into an empty context and into one holding `m !meter`; dependency cycles of length 1..12, 100, 1000, 5000 through 8 namespace shapes (units, prefixes, quantities, substance property, prefix/plural readings, reverse order, bare aliases, bare aliases that also read as prefix + base unit); forward/backward alias chains of 1000/5000/10000; 14 malformed substance/directive files; currency JSON truncated at every (quick: every 9th) byte, every field deleted or type-replaced (8 edits); date-pattern soups. Oracle: the load returns without panic/abort/stack overflow within the limit; a problem is reported when a deleted single-line definition was needed by another and has no other reading, and for every cycle; afterwards `1 + 1` answers 2 and queries for loaded/missing names do not panic. Non-trivial = all; distinct by the text loaded".into(),
+            rule: "deviation-bounded: 0 deviations (shipped files) then every single deviation {delete line, duplicate line, swap with next, delete each token, replace each number by 0 / -1} of definitions.units (quick: every 40th line), currency.units and datepatterns.txt; every definitions file of <= 4 (thorough 5) tokens over a 27-token alphabet, loaded into an empty context and into one holding `m !meter`; dependency cycles of length 1..12, 100, 1000, 2000 (thorough 5000) through 8 namespace shapes (units, prefixes, quantities, substance property, prefix/plural readings, reverse order, bare aliases, bare aliases that also read as prefix + base unit); forward/backward alias chains of 1000/3000 (thorough also 10000); 14 malformed substance/directive files; currency JSON truncated at every (quick: every 9th) byte, every field deleted or type-replaced (8 edits); date-pattern soups. Oracle: the load returns without panic/abort/stack overflow within the limit; a problem is reported when a deleted single-line definition was needed by another and has no other reading, and for every cycle; afterwards `1 + 1` answers 2 and queries for loaded/missing names do not panic. Non-trivial = all; distinct by the text loaded".into(),
             assumptions: vec![
                 "expression nesting depth beyond a few hundred is outside the statement's quantifier (chat-size / realistic files)".into(),
                 "the reporting clause is judged only where the harness can prove the deleted definition has no other reading".into(),
@@ -413,7 +415,7 @@ impl Space for C13 {
         } else if f == ns + 1 {
             format!("cycle of length {} through {}", self.cyc_lens[d[0] as usize], ["units", "prefixes", "quantities", "a substance property", "prefix/plural readings", "units in reverse order", "bare aliases", "bare aliases that also read as prefix + base unit"][d[1] as usize])
         } else if f == ns + 2 {
-            format!("alias chain of {} {}", [1000, 5000, 10000][d[0] as usize], if d[1] == 0 { "forward" } else { "backward" })
+            format!("alias chain of {} {}", [1000, 3000, 10000][d[0] as usize], if d[1] == 0 { "forward" } else { "backward" })
         } else if f == ns + 3 {
             format!("substance file: {:?}", SUBSTANCE_FILES[d[0] as usize])
         } else if f == ns + 4 {
@@ -545,7 +547,7 @@ impl Space for C13 {
             return out;
         }
         if f == ns + 2 {
-            let n = [1000u64, 5000, 10000][d[0] as usize];
+            let n = [1000u64, 3000, 10000][d[0] as usize];
             let mut text = String::from("m !meter\n");
             // forward: each name depends on the next larger one, so the first visited name pulls in the whole chain
             for i in 0..n {
